@@ -2110,6 +2110,9 @@ func (c *BytecodeCompiler) compileContinueExpressionNode(node *ast.ContinueExpre
 		return
 	}
 
+	if c.additionalAbortChecks {
+		c.emit(location.StartPos.Line, bytecode.CHECK_ABORT)
+	}
 	jumpOffsetId := c.emitLoadValue(value.Undefined, location)
 	c.offsetValueIds = append(c.offsetValueIds, jumpOffsetId)
 	c.addLoopJump(labelName, bytecodeContinueFinallyLoopJump, jumpOffsetId, location)
